@@ -307,6 +307,11 @@ func (s *Stream) ReceiveFrame(ctx context.Context) ([]byte, error) {
 
 	// Handle zero-length messages
 	if messageLength == 0 {
+		// On an AES-GCM stream every genuine frame, even an empty one, carries a
+		// 16-byte tag; a zero-length frame was never authenticated.
+		if s.gcm != nil && s.encrypted {
+			return nil, fmt.Errorf("unauthenticated empty frame on encrypted stream")
+		}
 		return []byte{}, nil
 	}
 
@@ -362,6 +367,11 @@ func (s *Stream) ReceiveFrameWithEnd(ctx context.Context) ([]byte, byte, error) 
 
 	// Handle zero-length messages
 	if messageLength == 0 {
+		// On an AES-GCM stream every genuine frame, even an empty one, carries a
+		// 16-byte tag; a zero-length frame was never authenticated.
+		if s.gcm != nil && s.encrypted {
+			return nil, 0, fmt.Errorf("unauthenticated empty frame on encrypted stream")
+		}
 		// Track header for AAD digest calculation
 		if s.recvDigest != nil && s.finalRecvDigest == nil {
 			s.recvDigest.Write(header)
